@@ -882,6 +882,7 @@ qb_log_init(const char *name, int32_t facility, uint8_t priority)
 		conf[i].debug = QB_FALSE;
 		conf[i].file_sync = QB_FALSE;
 		conf[i].extended = QB_TRUE;
+		conf[i].threaded = QB_FALSE;
 		conf[i].state = QB_LOG_STATE_UNUSED;
 		(void)strlcpy(conf[i].name, name, PATH_MAX);
 		conf[i].facility = facility;
